@@ -271,6 +271,7 @@ for pid, fns in {"C01": "parseResponse / parseAssertion / parseEncryptedAssertio
                  "C18": "validateLogoutResponse / ValidateLogoutResponseForm and ValidateLogoutResponseRedirect (from the signature check on) / the trust configuration of validateSignature",
                  "C08": "IdpAuthnRequest.getSPEncryptionCert (the selection of the certificate string, up to its decoding)",
                  "C10": "xmlenc appendPadding / stripPadding / the framing of CBC.Decrypt", "C11": "xmlenc stripPadding / the framing of CBC.Decrypt",
+                 "C09": "ServiceProvider.GetArtifactBindingLocation (where artifacts are resolved)",
                  "C16": "samlsp CookieSessionProvider.GetSession / JWTSessionCodec.Decode and JWTTrackedRequestCodec.Decode (the claim checks after the JWT library's parse)",
                  "C12": "samlsp Middleware.HandleStartAuthFlow (the choice of binding and location) / ServiceProvider.GetSSOBindingLocation / GetSLOBindingLocation",
                  "C13": "samlsp Middleware.HandleStartAuthFlow (the choice of binding and location)",
